@@ -49,7 +49,7 @@ class RunTimeout(Exception):
     a loop that does not terminate in this setting"""
 
 
-RUN_SECONDS = 20.0
+RUN_SECONDS = 8.0
 
 
 class deadline:
@@ -515,6 +515,8 @@ def compare_a(ref, other, setting):
         return viol
     if ref["obs"] == other["obs"]:
         return viol
+    if ref["outcome"] == "timeout" and other["outcome"] == "timeout":
+        return viol  # neither terminates; how far each got within the deadline is wall-clock noise
     for i in range(3):
         if ref["obs"][i] != other["obs"][i]:
             where = first_diff(ref["obs"][i], other["obs"][i], FIELD_NAMES[i])
@@ -550,11 +552,17 @@ def schedules_a(scenario):
     """default schedule + every single-deviation schedule (from the reference setting)"""
     r = run_setting_a(scenario, [], SETTINGS[0])
     out = [[]]
+    if r["outcome"] == "timeout":
+        return out  # reported by task_a on the default schedule; do not multiply the waiting
     for i, (n, costs) in enumerate(r["points"]):
         for alt in range(1, n):
             if costs[alt] is not None and costs[alt] <= 1:
                 out.append(r["choices"][:i] + [alt])
     return out
+
+
+def sched_job(scenario):
+    return schedules_a(scenario)
 
 
 def task_a(item):
@@ -573,6 +581,7 @@ def task_a(item):
         res["outcomes"].add(core.stable_hash(ref["obs"][2]))
         if ref["exc"] is not None:
             res["exceptions_both"] += 1
+        stop = ref["outcome"] == "timeout"
         for setting in SETTINGS[1:]:
             o = run_setting_a(scenario, prefix, setting)
             res["runs"] += 1
@@ -581,6 +590,10 @@ def task_a(item):
             for sig, what in vs:
                 sig = dict(sig, part="netsim")
                 res["viol"].append((sig, what, sid, prefix, list(setting)))
+                if sig["monitor"] in ("terminates_only_with_logging",) or o["outcome"] == "timeout":
+                    stop = True
+        if stop:
+            break  # every further schedule of this chunk would wait for the deadline again
     res["outcomes"] = sorted(res["outcomes"])
     return res
 
@@ -1075,8 +1088,10 @@ def run(ctx):
             scen["echo/%s" % nm] = ({"ops": c01.SCRIPTS["echo"], "cfg": cfg}, True)
         items = []
         n_sched = 0
+        full_ids = [sid for sid, (sc, full) in scen.items() if full]
+        scheds = dict(zip(full_ids, core.pmap(sched_job, [scen[sid][0] for sid in full_ids], ordered=True)))
         for sid, (sc, full) in scen.items():
-            sch = schedules_a(sc) if full else [[]]
+            sch = scheds[sid] if full else [[]]
             n_sched += len(sch)
             for part in chunk(sch, 12):
                 items.append((sid, sc, part))
